@@ -1,6 +1,6 @@
 (* Correspondence cases for C15 (TDL syntax level). *)
 From Coq Require Import List NArith ZArith Bool.
-From PyD Require Export Base.Str Model.Tdl Corr.Common.
+From PyD Require Export Base.Str Model.Tdl Model.Tfs Corr.Common.
 Import ListNotations.
 
 Definition ostr_eqb := option_eqb str_eqb.
@@ -68,10 +68,20 @@ Definition coarse (t : ttok) : ttok := match t with KDoc s => KDoc (squash s) | 
 
 Inductive case :=
 | CParse (toks : list ttok) (res : option (list tevent))
-| CFormat (evs : list tevent) (toks : list ttok).
+| CFormat (evs : list tevent) (toks : list ttok)
+| CTfs (ops : list (list str * N)) (oks : list bool) (gets : list (list str * option Z))
+       (feats feats_expanded : list (list str * Z)).
+
+Definition pz_eqb : list str * Z -> list str * Z -> bool := pair_eqb (list_eqb str_eqb) Z.eqb.
 
 Definition check_case (c : case) : bool :=
   match c with
   | CParse toks res => option_eqb (list_eqb tevent_eqb) (p_events (2 * length toks + 2) toks []) res
   | CFormat evs toks => list_eqb ttok_eqb (map coarse (flat_map fmt_event evs)) (map coarse toks)
+  | CTfs ops oks gets feats featsx =>
+      let '(f, oks') := run_sets [] ops in
+      list_eqb Bool.eqb oks' oks &&
+      forallb (fun g => option_eqb Z.eqb (option_map obs_node (getitem f (fst g))) (snd g)) gets &&
+      list_eqb pz_eqb (map (fun pv => (fst pv, obs_node (snd pv))) (features 64 false f)) feats &&
+      list_eqb pz_eqb (map (fun pv => (fst pv, obs_node (snd pv))) (features 64 true f)) featsx
   end.
